@@ -1,5 +1,5 @@
 """C02 - no history of snapshot/delete/clean damages a remaining snapshot."""
-from harness import core, repo_hist
+from harness import cli_hist, core, repo_hist
 from harness.core import Report
 
 RULE = ('cases = random multi-user histories (2-4 users related as owner/shared/clone/independent, or unencrypted) of snapshot, '
@@ -67,6 +67,9 @@ def local_overlap_probe(ctx, rep):
     _sh.rmtree(root, ignore_errors=True)
 
 
+CLI_MINE = ('exception', 'hang', 'snapshot_unreadable', 'snapshot_objects', 'snapshot_name', 'restore_mismatch', 'referenced_chunk_missing', 'gc_overreach', 'unknown_object', 'stored_bytes')
+
+
 def _run(ctx, n, nops, rep):
     seeds = [ctx.rng.randint(0, 2 ** 31) for _ in range(n)]
     repo_hist.run_batch(seeds, ctx.scratch, rep, nops=nops, weights=WEIGHTS, checks=CHECKS,
@@ -74,6 +77,8 @@ def _run(ctx, n, nops, rep):
     local_overlap_probe(ctx, rep)
     rep.violations[:] = [v for v in rep.violations if v['signature']['kind'] in
                          ('restore_mismatch', 'referenced_chunk_missing', 'gc_overreach', 'exception', 'unknown_object', 'failed_gc_mutated', 'chunk_mixed_by_overlapping_uploads')]
+    # the same property through the tool as a user runs it: fresh `python -m replicat` processes, a repository on disk, real faults
+    cli_hist.run_scenarios(ctx, rep, {'plain': ctx.scale(3, 30), 'oserror': ctx.scale(4, 40)}, CLI_MINE)
 
 
 def run(ctx) -> Report:
@@ -90,6 +95,9 @@ def search(ctx, broken) -> Report:
 
 
 def replay(ctx, obj):
+    rc = cli_hist.replay_cli(ctx, obj, CLI_MINE)
+    if rc is not None:
+        return rc
     rep = Report(rule=RULE)
     seed = (obj.get('replay') or {}).get('seed')
     if seed is None:
